@@ -406,8 +406,11 @@ pub fn exec(plan: &ConcPlan) -> RunOut {
     let mut failed: Vec<usize> = Vec::new();
     for (i, d) in done.iter().enumerate() {
         if let Resp::Error(e) | Resp::Panic(e) = &d.resp {
-            let busy = e.contains("locked") || e.contains("busy") || e.contains("BUSY");
-            if stalled_long && busy && matches!(d.resp, Resp::Error(_)) {
+            // behind an injected >= 5 s stall a request may legitimately run out of its lock-wait
+            // budget; whatever the error says, it must then have had no effect (the remaining
+            // requests must be linearizable and explain the final state on their own)
+            let _ = e;
+            if stalled_long && matches!(d.resp, Resp::Error(_)) {
                 out.bump("probe.busy_timeout_behind_injected_stall");
                 failed.push(i);
             } else {
